@@ -90,7 +90,11 @@ func genC07Op(sc *Scenario, r *engine.PRNG, cfg world.InstCfg, types []string, f
 		op.VSeed = 0
 		return op, true
 	}
-	switch r.Intn(10) {
+	switch r.Intn(11) {
+	case 10:
+		// Marshal into a caller-supplied buffer (empty, tight, with a prefix...)
+		op.Kind = "marshalAppend"
+		op.Arg = r.Intn(6)
 	case 0, 1, 2, 3:
 		op.Kind = "marshal"
 		if len(sc.Shared) > 0 && r.Intn(4) == 0 {
